@@ -230,6 +230,40 @@ m("c19-writer-drops-on-yield", "C19", "bot/client.go", "\t\t\tif err := c.WriteP
 m("c19-bot-threshold-late", "C19", "bot/login.go", "\t\t\tconn.SetThreshold(int(threshold))\n", "\t\t\tif threshold != 0 {\n\t\t\t\tconn.SetThreshold(int(threshold))\n\t\t\t}\n")
 m("c19-config-ack-missing-on-extras", "C19", "bot/configuration.go", "\t\t\t// send it back\n\t\t\terr = conn.WritePacket(pk.Marshal(\n\t\t\t\tpacketid.ServerboundConfigPong,", "\t\t\t// send it back\n\t\t\terr = conn.WritePacket(pk.Marshal(\n\t\t\t\tpacketid.ServerboundConfigKeepAlive,")
 
+# ---------------------------------------------------------------- C20 (pools, cache, bot.Conn, player list)
+m("c20-alias-pooled-buffer", "C20", "net/packet/packet.go",
+  "\t\tDataLength = VarInt(int64(PacketLength) - n2 - n3)\n\t}\n",
+  "\t\tDataLength = VarInt(int64(PacketLength) - n2 - n3)\n\t\tif cap(p.Data) < int(DataLength) {\n\t\t\tp.ID = int32(PacketID)\n\t\t\tp.Data = buff.Bytes()[int(n2+n3):]\n\t\t\treturn nil\n\t\t}\n\t}\n")
+m("c20-global-scratch-buffer", "C20", "net/packet/packet.go",
+  "func (p *Packet) packWithoutCompression(w io.Writer) error {\n\tbuffer := bufPool.Get().(*bytes.Buffer)\n\tdefer bufPool.Put(buffer)\n",
+  "var scratchBuffer bytes.Buffer\n\nfunc (p *Packet) packWithoutCompression(w io.Writer) error {\n\tbuffer := &scratchBuffer\n")
+m("c20-early-put-unpack", "C20", "net/packet/packet.go",
+  "\tbuff := bufPool.Get().(*bytes.Buffer)\n\tdefer bufPool.Put(buff)\n\tbuff.Reset()\n\n\t_, err = io.CopyN(buff, r, int64(PacketLength))\n\tif err != nil {\n\t\treturn err\n\t}\n",
+  "\tbuff := bufPool.Get().(*bytes.Buffer)\n\tbuff.Reset()\n\n\t_, err = io.CopyN(buff, r, int64(PacketLength))\n\tbufPool.Put(buff)\n\tif err != nil {\n\t\treturn err\n\t}\n")
+m("c20-typecache-plain-map", "C20", "nbt/typeinfo.go",
+  "var fieldCache sync.Map\n\nfunc cachedTypeFields(t reflect.Type) structFields {\n\tif ti, ok := fieldCache.Load(t); ok {\n\t\treturn ti.(structFields)\n\t}\n\ttInfo := typeFields(t)\n\tti, _ := fieldCache.LoadOrStore(t, tInfo)\n\treturn ti.(structFields)\n}",
+  "var fieldCache = map[reflect.Type]structFields{}\nvar _ sync.Mutex\n\nfunc cachedTypeFields(t reflect.Type) structFields {\n\tif ti, ok := fieldCache[t]; ok {\n\t\treturn ti\n\t}\n\ttInfo := typeFields(t)\n\tfieldCache[t] = tInfo\n\treturn tInfo\n}")
+m("c20-playerlist-check-outside-lock", "C20", "server/playerlist.go",
+  "func (p *PlayerList) ClientJoin(client PlayerListClient, player PlayerSample) {\n\tp.playersLock.Lock()\n\tdefer p.playersLock.Unlock()\n\n\tif len(p.players) >= p.maxPlayer {\n\t\tclient.SendDisconnect(chat.TranslateMsg(\"multiplayer.disconnect.server_full\"))\n\t\treturn\n\t}\n",
+  "func (p *PlayerList) ClientJoin(client PlayerListClient, player PlayerSample) {\n\tif p.Len() >= p.maxPlayer {\n\t\tclient.SendDisconnect(chat.TranslateMsg(\"multiplayer.disconnect.server_full\"))\n\t\treturn\n\t}\n\tp.playersLock.Lock()\n\tdefer p.playersLock.Unlock()\n")
+m("c20-playerlist-len-nolock", "C20", "server/playerlist.go",
+  "func (p *PlayerList) Len() int {\n\tp.playersLock.Lock()\n\tdefer p.playersLock.Unlock()\n\treturn len(p.players)", "func (p *PlayerList) Len() int {\n\treturn len(p.players)")
+m("c20-playerlist-left-nolock", "C20", "server/playerlist.go",
+  "func (p *PlayerList) ClientLeft(client PlayerListClient) {\n\tp.playersLock.Lock()\n\tdefer p.playersLock.Unlock()\n\tdelete(p.players, client)", "func (p *PlayerList) ClientLeft(client PlayerListClient) {\n\tdelete(p.players, client)")
+m("c20-playerlist-capacity-off-by-one", "C20", "server/playerlist.go",
+  "\tp.playersLock.Lock()\n\tdefer p.playersLock.Unlock()\n\n\tif len(p.players) >= p.maxPlayer {", "\tp.playersLock.Lock()\n\tdefer p.playersLock.Unlock()\n\n\tif len(p.players) > p.maxPlayer {")
+m("c20-botconn-rerr-after-close", "C20", "bot/client.go",
+  "\t\t\tif err := c.ReadPacket(&p); err != nil {\n\t\t\t\twc.rerr = err\n\t\t\t\tbreak\n\t\t\t}", "\t\t\tif err := c.ReadPacket(&p); err != nil {\n\t\t\t\tdefer func() { wc.rerr = err }()\n\t\t\t\tbreak\n\t\t\t}")
+m("c20-botconn-close-forgets-send", "C20", "bot/client.go",
+  "func (c *Conn) Close() error {\n\tc.send.Close()\n", "func (c *Conn) Close() error {\n")
+m("c20-botconn-reader-shares-packet", "C20", "bot/client.go",
+  "\tgo func() {\n\t\tfor {\n\t\t\t// take a buffer from pool, after the packet is handled we put it back\n\t\t\tp := pk.Packet{Data: wc.pool.Get().([]byte)}\n\t\t\tif err := c.ReadPacket(&p); err != nil {\n\t\t\t\twc.rerr = err\n\t\t\t\tbreak\n\t\t\t}",
+  "\tgo func() {\n\t\tvar lastData []byte\n\t\tfor {\n\t\t\t// take a buffer from pool, after the packet is handled we put it back\n\t\t\tp := pk.Packet{Data: wc.pool.Get().([]byte)}\n\t\t\tif cap(lastData) > 0 {\n\t\t\t\tp.Data = lastData\n\t\t\t}\n\t\t\tif err := c.ReadPacket(&p); err != nil {\n\t\t\t\twc.rerr = err\n\t\t\t\tbreak\n\t\t\t}\n\t\t\tlastData = p.Data")
+m("c20-botconn-reader-reuses-buffer", "C20", "bot/client.go",
+  "\t\t\tif ok := wc.recv.Push(p); !ok {", "\t\t\twc.pool.Put(p.Data)\n\t\t\tif ok := wc.recv.Push(p); !ok {")
+m("c20-channel-close-drops-buffered", "C20", "net/queue/queue.go",
+  "func (c ChannelQueue[T]) Close() {\n\tclose(c)", "func (c ChannelQueue[T]) Close() {\n\tselect {\n\tcase <-c:\n\tdefault:\n\t}\n\tclose(c)")
+
 
 def sh(cmd, cwd=None, timeout=3600, env=ENV):
     p = subprocess.run(cmd, shell=True, cwd=cwd, env=env, stdout=subprocess.PIPE, stderr=subprocess.STDOUT, text=True, timeout=timeout)
